@@ -47,6 +47,7 @@ pub struct Trace {
 }
 
 struct State {
+    paused: bool,
     stop: Option<Arc<AtomicBool>>,
     cancel: Cancel,
     seq: u64,
@@ -61,7 +62,17 @@ thread_local! {
 /// Start recording for the execution running on this (engine) thread.
 pub fn begin(stop: Option<Arc<AtomicBool>>, cancel: Cancel, keep_events: bool) {
     STATE.with(|s| {
-        *s.borrow_mut() = Some(State { stop, cancel, seq: 0, trace: Trace::default(), keep_events });
+        *s.borrow_mut() = Some(State { paused: false, stop, cancel, seq: 0, trace: Trace::default(), keep_events });
+    });
+}
+
+/// While paused, seam events are scheduling points only: not counted, not logged as events, no
+/// fault is injected (used for un-observed warm-up calls).
+pub fn pause(on: bool) {
+    STATE.with(|s| {
+        if let Some(st) = s.borrow_mut().as_mut() {
+            st.paused = on;
+        }
     });
 }
 
@@ -92,6 +103,9 @@ fn seam(kind: Kind, key: u64) {
     let raise = STATE.with(|s| {
         let mut s = s.borrow_mut();
         let Some(st) = s.as_mut() else { return None };
+        if st.paused {
+            return None;
+        }
         st.seq += 1;
         let n = match kind {
             Kind::Collision => {
